@@ -23,3 +23,21 @@ func init() {
 	props["C05"] = propCfg{Level: "exploration", QuickS: 30, ThoroughS: 480, Components: cacheReal, Stubs: cacheStub, Rule: cacheRule,
 		Assumptions: []string{"address references to replaceable events (kind:pubkey:) and to versions newer than the deletion request are left open (may)"}}
 }
+
+func init() {
+	props["C15"] = propCfg{Level: "exploration", QuickS: 40, ThoroughS: 600,
+		Components: []string{"mocrelay.EventCache (instrumented: a yield before every statement, simulated RWMutex)", "mocrelay.CacheHandler + SimpleHandler sessions (session mode)", "igrmk/treemap"},
+		Stubs:      []string{"clients (2-4 actors calling Add/Find/Len directly, or scripted sessions)", "goroutine scheduler (cooperative, seeded)"},
+		Rule:       "rapid draws capacity 1-4, 2-8 related events with unique created_at (so the sequential specification is a function), 2-4 clients with up to 16 (quick) / 24 (thorough) operations in total (Add, Find with listings and selective filters, Len), direct or through CacheHandler sessions, and a schedule with preemption inside Add/Find. Each history is checked for linearizability: first against the witness order of simulated-lock acquisitions, and when that does not explain the results, by porcupine over invoke/return stamps. Non-trivial: >= 2 insertions, >= 1 query, more context switches than 2x clients; distinct = distinct (case, schedule) hash.",
+		Assumptions: []string{"preemption at statement boundaries of the instrumented packages", "data races without effect at statement granularity are not observable by this check (no lockset/HB detector in the deciding path)", "porcupine Unknown (timeout) is counted, never reported"}}
+}
+
+func init() {
+	real := []string{"mocrelay.MergeHandler session: handleRecv/handleSend/mergeSend goroutines, the three 1-slot state channels, reply aggregation (instrumented: a yield before every statement)", "event matchers used for limit/filter gating"}
+	stub := []string{"2-4 child handlers (scripted: every emission is a scheduler decision; sequential and asynchronous styles)", "client (scripted actor with pause/resume and await-EOSE)", "goroutine scheduler (cooperative, seeded)"}
+	rule := "rapid draws 2-4 scripted children (per REQ: 0-4 stored events sorted or not, duplicated across children, matching or not, then EOSE / CLOSED / nothing, then 0-3 live events, notices, events for unknown subscriptions; per EVENT a verdict and reason with machine-readable prefix; per COUNT a value), a client script of up to 7 (quick) / 12 (thorough) operations (REQ with re-use of an id only after its EOSE, CLOSE racing the EOSE, EVENTs and COUNTs in flight together, repeated ids in 10% of runs, reader pauses) and a schedule. Non-trivial: the client received at least two messages and there were more context switches than 3x children; distinct = distinct (case, schedule) hash."
+	props["C08"] = propCfg{Level: "exploration", QuickS: 40, ThoroughS: 600, Components: real, Stubs: stub, Rule: rule,
+		Assumptions: []string{"children send at most one EOSE per REQ (as the property's quantifier lists)", "stream constraints are demanded while the subscription is open (up to its EOSE and not beyond the client's CLOSE)", "after a re-issue of an id, forwarding of a straggler of the previous incarnation is demanded only when per-child FIFO proves it was processed before the re-issue"}}
+	props["C09"] = propCfg{Level: "exploration", QuickS: 40, ThoroughS: 600, Components: real, Stubs: stub, Rule: rule,
+		Assumptions: []string{"'first rejecting child' is read as lowest index or earliest reply, either accepted", "children answer each EVENT with one OK and each COUNT with one COUNT"}}
+}
